@@ -749,6 +749,46 @@ def oracle_context(ctx, c, rng):
         if np.asarray(got).tolist() != np.asarray(want).tolist() or g1 != g2:
             ctx.fail('selector:boundaries_only', f'{type(m).__name__}.{what} = {np.asarray(got).tolist()[:10]} but the predicate set '
                      f'(intersected with the boundary set) is {np.asarray(want).tolist()[:10]}; get_dofs of the two differ', dict(data, call=what))
+    # facets_satisfying with normal= (oriented boundary): same facet set as without it, boundaries_only still honoured
+    if m.p.shape[0] > 1:
+        nrm = np.zeros(m.p.shape[0])
+        nrm[0] = 1.0
+        for bo in (True, False):
+            want_f = np.intersect1d(np.nonzero(maskf)[0], bfac_) if bo else np.nonzero(maskf)[0]
+            try:
+                ob = m.facets_satisfying(pf, boundaries_only=bo, normal=nrm)
+            except Exception:
+                continue        # no normals for this cell type / degenerate geometry
+            ctx.count(('satisfying-normal', c.kind, c.name, bo, m.t.tolist()), nontrivial=True)
+            okori = hasattr(ob, 'ori') and len(np.asarray(ob.ori)) == len(np.asarray(ob)) and set(np.asarray(ob.ori).tolist()) <= {0, 1}
+            g1 = b.get_dofs(np.asarray(ob)).flatten().tolist()
+            g2 = b.get_dofs(np.asarray(want_f, dtype=np.int32)).flatten().tolist()
+            if np.asarray(ob).tolist() != np.asarray(want_f).tolist() or not okori or g1 != g2:
+                ctx.fail('selector:boundaries_only', f'{type(m).__name__}.facets_satisfying(pred, boundaries_only={bo}, normal=e_x) gives '
+                         f'{len(np.asarray(ob))} facets, the predicate set{" intersected with the boundary set" if bo else ""} has {len(want_f)}; '
+                         f'get_dofs on it {len(g1)} DOFs instead of {len(g2)}' + ('' if okori else '; no 0/1 orientation per facet'),
+                         dict(data, call=f'facets_satisfying(pred, boundaries_only={bo}, normal=e_x)'))
+    # the (deprecated) dictionary form of `facets` with skip= and name filters must agree with the other selector forms
+    import warnings
+    arrF = np.unique(rng.integers(0, nfx, size=3)).astype(np.int32)
+    for nm in sorted(set(c.names)):
+        with warnings.catch_warnings():
+            warnings.simplefilter('ignore')
+            try:
+                dd = b.get_dofs({'a': arrF, 'p': pf}, skip=[nm])
+            except Exception as ex:
+                dd = f'{type(ex).__name__}: {ex}'
+        ctx.count(('dict-form', c.kind, c.name, nm, m.t.tolist()), nontrivial=True)
+        wa = b.get_dofs(arrF, skip=[nm]).flatten().tolist()
+        wp = b.get_dofs(np.nonzero(maskf)[0].astype(np.int32), skip=[nm]).flatten().tolist()
+        ok = isinstance(dd, dict) and sorted(dd) == ['a', 'p'] and dd['a'].flatten().tolist() == wa and dd['p'].flatten().tolist() == wp \
+            and dd['a'].keep([nm]).flatten().tolist() == [] and dd['a'].all().tolist() == wa
+        if not ok:
+            ga = dd['a'].flatten().tolist() if isinstance(dd, dict) and 'a' in dd else dd
+            ctx.fail('selector:dict-form', f"{c.name} on {type(m).__name__}: get_dofs({{'a': {arrF.tolist()}, 'p': pred}}, skip=[{nm!r}])['a'] has "
+                     f'{len(ga) if isinstance(ga, list) else ga} DOFs, get_dofs({arrF.tolist()}, skip=[{nm!r}]) has {len(wa)}: the dictionary form '
+                     'must agree with the index / predicate forms', dict(data, facets=arrF.tolist(), skip=nm))
+            break
     # the empty list / tuple / set denotes the empty set
     for kw, val in (('facets', []), ('facets', ()), ('facets', set()), ('elements', []), ('elements', ()), ('nodes', [])):
         ctx.count(('empty', c.kind, c.name, kw, type(val).__name__), nontrivial=False)
